@@ -140,6 +140,8 @@ MAY_RAISE = {
     'datetime.datetime.strptime': ('ValueError',),
     'time.strptime': ('ValueError',),
     'int': ('ValueError',),
+    # an owner without passwd / group entry (tarball, NFS, deleted account) is ordinary
+    'pwd.getpwuid': ('KeyError',), 'grp.getgrgid': ('KeyError',), 'pwd.getpwnam': ('KeyError',),
     'float': ('ValueError',),
     'input': ('EOFError', 'KeyboardInterrupt'),
     'raw_input': ('EOFError', 'KeyboardInterrupt'),
@@ -165,8 +167,7 @@ METHOD_MAY_RAISE = {
 
 # soft raises: only ever matched against handlers of the enclosing function
 SOFT_RAISE_CALLS = {
-    'pwd.getpwuid': ('KeyError',), 'grp.getgrgid': ('KeyError',),
-    'pwd.getpwnam': ('KeyError',), 'getattr': ('AttributeError',),
+    'getattr': ('AttributeError',),
 }
 
 BUILTIN_NAMES = {
@@ -175,6 +176,8 @@ BUILTIN_NAMES = {
     'isinstance', 'issubclass', 'type', 'getattr', 'setattr', 'hasattr', 'print',
     'repr', 'min', 'max', 'sum', 'any', 'all', 'abs', 'open', 'input', 'super',
     'object', 'id', 'hash', 'callable', 'vars', 'dir', 'format', 'chr', 'ord', 'bytes',
+    'oct', 'hex', 'bin', 'delattr', 'OverflowError', 'ZeroDivisionError', 'MemoryError',
+    'TimeoutError', 'BlockingIOError', 'BrokenPipeError', 'InterruptedError', 'ascii', 'slice', 'memoryview', 'complex', 'locals', 'globals',
     'bytearray', 'divmod', 'round', 'pow', 'staticmethod', 'classmethod', 'property',
     'NotImplemented', 'Ellipsis', 'unicode', 'raw_input', 'basestring',
     'BaseException', 'Exception', 'KeyboardInterrupt', 'SystemExit', 'StopIteration',
